@@ -80,7 +80,8 @@ int main(){
 					if(deriv && HASD) v = lo.evalDerivative(LABELS, P, G); else v = lo.eval(LABELS, P); \
 					bool inexact = std::fetestexcept(FE_INEXACT) != 0; \
 					orc = oracle(lo, LABELS, P, lo.eval(LABELS, P), HASD, !floatMode); \
-					if(!floatMode && inexact) orc += " !oracle inexact-in-exact-mode"; }
+					if(!floatMode && inexact) orc += " !oracle inexact-in-exact-mode"; \
+					for(std::size_t gi = 0; gi != G.size1(); ++gi) for(std::size_t gj = 0; gj != G.size2(); ++gj) if(!std::isfinite(G(gi,gj))){ orc += " !oracle non-finite-gradient"; gi = G.size1() - 1; break; } }
 				if(loss == "squared" && vecLabels){ SquaredLoss<> l; RUN(l, L, true) }
 				else if(loss == "squaredclass" && clsLabels){ SquaredLoss<RealVector,unsigned int> l; RUN(l, C, true) }
 				else if(loss == "hinge" && clsLabels){ HingeLoss l; RUN(l, C, true) }
@@ -120,8 +121,23 @@ int main(){
 					omp_set_num_threads((int)ts[0]);
 					double v = E.eval(w);
 					// ErrorFunction divides by numberOfElements (= the protocol's ne, which the generator computes as 2*sum of batch losses)
-					if(double(total) == ne[0]) out = "V=" + vh::exactDouble(v);
+					if(double(total) == ne[0]){
+						out = "V=" + vh::exactDouble(v);
+						// independent oracle: the mean loss computed directly (all terms are multiples of 1/2: exact)
+						double direct = 0; for(double l: bl) direct += l;
+						if(v != direct / double(total)) out += " !oracle error-differs-from-mean-loss";
+					}
 				}
+			}
+		}else if(secs.size() == 3 && secs[0].size() == 1 && (secs[0][0] == "onenorm" || secs[0][0] == "twonorm")){
+			std::vector<double> x, mk;
+			if(nums(secs[1], x) && nums(secs[2], mk) && x.size() == mk.size()){
+				RealVector p(x.size()), m(x.size()); for(std::size_t i = 0; i != x.size(); ++i){ p(i) = x[i]; m(i) = mk[i]; }
+				RealVector g; double v, direct = 0;
+				if(secs[0][0] == "onenorm"){ OneNormRegularizer<> r; r.setMask(m); v = r.evalDerivative(p, g); for(std::size_t i = 0; i != x.size(); ++i) direct += std::fabs(x[i]*mk[i]); }
+				else { TwoNormRegularizer<> r; r.setMask(m); v = r.evalDerivative(p, g); for(std::size_t i = 0; i != x.size(); ++i) direct += mk[i]*x[i]*x[i]; direct *= 0.5; }
+				out = "V=" + vh::exactDouble(v) + " G=" + showVec(g);
+				if(v != direct) out += " !oracle regularizer-value-differs-from-stated-term";
 			}
 		}else if(secs.size() == 2 && secs[0].size() == 1 && (secs[0][0] == "onenorm" || secs[0][0] == "twonorm")){
 			std::vector<double> x;
